@@ -447,9 +447,6 @@ impl<F: Flavor> System for Sys<F> {
                         if v.0 != t {
                             out.v("C11", "foreign-value-returned", format!("send({}) failed and handed back value {}", t, v.0));
                         }
-                        if !self.closed {
-                            out.v("C13", "send-rejected-on-open-channel", format!("send({}) failed although the channel is open", t));
-                        }
                     }
                 }
             }
